@@ -34,5 +34,5 @@ Extraction "moc_model.ml"
   Merge2D.merge2 Merge2D.op_union Merge2D.op_inter Merge2D.op_diff
   STBuilder.st_build
   SweepLine.st_sweep
-  AsciiCodec.to_ascii AsciiCodec.from_ascii AsciiCodec.isort_e AsciiCodec.st_to_ascii AsciiCodec.st_from_ascii
+  AsciiCodec.to_ascii AsciiCodec.from_ascii AsciiCodec.isort_e AsciiCodec.st_to_ascii AsciiCodec.st_from_ascii AsciiCodec.to_ascii_stream AsciiCodec.from_ascii_stream
   AsciiMoc.elems_of_cells AsciiMoc.ranges_of_elems.
